@@ -201,6 +201,7 @@ func execRecv(f []string) (string, string) {
 		} else {
 			tags["reject"] = true
 		}
+		tags[fmt.Sprintf("state%d", idx)] = true
 	}
 	base := dkg.VerifC07Base(st)
 	total := 0
@@ -453,7 +454,54 @@ func genParties(r *hx.Rng) string {
 	return fmt.Sprintf("parties %d %d %s %s", n, self, hx.JoinInts(excl), randSeed(r))
 }
 
+// genRecvTable: the member is walked into state `st` (each of the 6 states equally often), then a
+// battery of messages that must be rejected there (another session, an excluded member with its
+// genuine key, the member itself, another operator's key, an index outside the group, a foreign
+// payload) plus genuine ones of random kinds is delivered.
+func genRecvTable(r *hx.Rng) string {
+	n := r.Range(3, 7)
+	self := r.Range(1, n)
+	ex := r.Range(1, n)
+	for ex == self {
+		ex = r.Range(1, n)
+	}
+	seats := make([]int, n)
+	for i := range seats {
+		seats[i] = i + 1
+	}
+	other := 1
+	for other == self || other == ex {
+		other++
+	}
+	sess := r.Intn(3)
+	st := r.Intn(6)
+	var evs []string
+	for i := 0; i < st; i++ {
+		evs = append(evs, ">")
+	}
+	var msgs []string
+	for i := 0; i < 3; i++ {
+		msgs = append(msgs,
+			fmt.Sprintf("%d.%d.%d.%d", r.Intn(6), other, other, (sess+1+r.Intn(2))%3),
+			fmt.Sprintf("%d.%d.%d.%d", r.Intn(6), ex, ex, sess),
+			fmt.Sprintf("%d.%d.%d.%d", r.Intn(6), self, self, sess),
+			fmt.Sprintf("%d.%d.%d.%d", r.Intn(6), other, ex, sess),
+			fmt.Sprintf("%d.%d.%d.%d", r.Intn(6), hx.Pick(r, []int{0, n + 1, 255}), other, sess),
+			fmt.Sprintf("6.%d.%d.%d", other, other, sess),
+			fmt.Sprintf("%d.%d.%d.%d", r.Intn(6), other, other, sess),
+		)
+	}
+	p := r.Perm(len(msgs))
+	for _, j := range p {
+		evs = append(evs, msgs[j])
+	}
+	return fmt.Sprintf("recv %d %d %d %s %d %s", n, self, ex, hx.JoinInts(seats), sess, hx.JoinStrs(evs))
+}
+
 func genRecv(r *hx.Rng) string {
+	if r.Chance(1, 3) {
+		return genRecvTable(r)
+	}
 	n := r.Range(2, 8)
 	self := r.Range(1, n)
 	var excl []int
